@@ -160,3 +160,55 @@ package fs
 //@   ensures others: forall n string :: n != lockName[l] ==> dirFid[lockFS[l]][n] == old(dirFid[lockFS[l]][n]) && lockHeld[lockFS[l]][n] == old(lockHeld[lockFS[l]][n])
 //@   ensures err: err != nil ==> isIOErr(err)
 //@   modifies dirFid[lockFS[l]], lockHeld[lockFS[l]]
+
+// ---- fs/mem.go: the in-memory file refines the data clauses of the File contract -----------------------------
+// Abstraction: a memFile is a file identity; its length is f.size, its byte q (0 <= q < size) is f.buf[q]; a handle
+// (*seekableMemFile) has position f.offset. The clauses below are the len/data/pos clauses of the File contract
+// above read through this abstraction. Durability (fDur) has no counterpart in memory and is not refined.
+
+// representation invariant: the buffer holds exactly the file
+//@ spec func memInv(f *memFile) bool = f != nil && f.size >= 0 && len(f.buf) == int(f.size) && f.size <= 0x1000000000000
+
+//@ func (f *memFile) truncate(size int64) [C17]
+//@   requires inv: memInv(f) && size >= 0 && size <= 0x1000000000000
+//@   ensures inv: memInv(f) && f.size == size
+//@   ensures array: arr(f.buf) == old(arr(f.buf)) || fresh(f.buf)
+//@   ensures [C17] kept: forall q int :: 0 <= q && q < int(size) && q < int(old(f.size)) ==> f.buf[q] == old(f.buf[q])
+//@   ensures [C17] zero: forall q int :: int(old(f.size)) <= q && q < int(size) ==> f.buf[q] == 0
+//@   modifies f.buf, f.size, f.buf[*]
+
+//@ func (f *memFile) Truncate(size int64) (err error) [C17]
+//@   requires inv: memInv(f) && size >= 0 && size <= 0x1000000000000
+//@   ensures closed: old(f.refs) == 0 ==> err != nil && f.size == old(f.size)
+//@   ensures len: err == nil ==> memInv(f) && f.size == size
+//@   ensures [C17] kept: err == nil ==> forall q int :: 0 <= q && q < int(size) && q < int(old(f.size)) ==> f.buf[q] == old(f.buf[q])
+//@   ensures [C17] zero: err == nil ==> forall q int :: int(old(f.size)) <= q && q < int(size) ==> f.buf[q] == 0
+//@   modifies f.buf, f.size, f.buf[*]
+
+//@ func (f *memFile) WriteAt(p []byte, off int64) (n int, err error) [C17]
+//@   requires inv: memInv(f) && off >= 0 && off <= 0x1000000000000 && int64(len(p)) <= 0x1000000000000 - off && (arr(p) == 0 || arr(p) != arr(f.buf))
+//@   ensures closed: old(f.refs) == 0 ==> err != nil && f.size == old(f.size)
+//@   ensures n: err == nil ==> n == len(p) && memInv(f) && f.size == max64(old(f.size), off + int64(len(p)))
+//@   ensures [C17] written: err == nil ==> forall q int :: int(off) <= q && q < int(off) + len(p) ==> f.buf[q] == p[q - int(off)]
+//@   ensures [C17] kept: err == nil ==> forall q int :: 0 <= q && q < int(old(f.size)) && (q < int(off) || q >= int(off) + len(p)) ==> f.buf[q] == old(f.buf[q])
+//@   ensures [C17] gap-is-zero: err == nil ==> forall q int :: int(old(f.size)) <= q && q < int(off) ==> f.buf[q] == 0
+//@   modifies f.buf, f.size, f.buf[*]
+
+//@ func (f *memFile) ReadAt(p []byte, off int64) (n int, err error) [C17]
+//@   requires inv: memInv(f) && off >= 0 && (arr(p) == 0 || arr(p) != arr(f.buf))
+//@   ensures [C17] n: err == nil ==> n == int(min64(int64(len(p)), f.size - off)) && n >= 0
+//@   ensures [C17] eof: old(f.refs) != 0 && off >= f.size ==> err == io.EOF && n == 0
+//@   ensures [C17] data: err == nil ==> forall q int :: 0 <= q && q < n ==> p[q] == f.buf[int(off) + q]
+//@   modifies p[*]
+
+//@ func (f *memFile) Slice(start int64, end int64) (s []byte, err error) [C17]
+//@   requires inv: memInv(f) && 0 <= start && start <= end
+//@   ensures [C17] eof: old(f.refs) != 0 && end > f.size ==> err == io.EOF
+//@   ensures [C17] view: err == nil ==> end <= f.size && len(s) == int(end - start) && arr(s) == arr(f.buf) && off(s) == off(f.buf) + int(start)
+
+//@ func (f *seekableMemFile) Seek(offset int64, whence int) (pos int64, err error) [C17]
+//@   requires inv: f.memFile != nil
+//@   ensures [C17] start: err == nil && whence == 0 ==> pos == offset && f.offset == offset
+//@   ensures [C17] cur: err == nil && whence == 1 ==> pos == old(f.offset) + offset && f.offset == pos
+//@   ensures [C17] end: err == nil && whence == 2 ==> pos == f.memFile.size + offset && f.offset == pos
+//@   modifies f.offset
